@@ -32,7 +32,11 @@ def header_pairs(value, out=None, depth=0, seen=None):
     seen.add(id(value))
     if isinstance(value, (list, tuple)):
         for x in value:
-            header_pairs(x, out, depth + 1, seen)
+            if isinstance(x, str) and '=' in x and ', ' not in x:
+                k_, v_ = x.split('=', 1)
+                out.append((k_, v_, None))
+            else:
+                header_pairs(x, out, depth + 1, seen)
         return out
     if isinstance(value, AList):
         for x in value.items:
